@@ -443,6 +443,8 @@ pub struct HState {
     pub bad: Option<String>,
     pub recovered: bool,
     pub multi: bool,
+    /// the last document follows one that (alone) breaches some budget of the model
+    pub after_breach: bool,
 }
 
 /// target for the stream: a map whose values must be scalars/seq of scalars, so that `type_error_deep` fails late
@@ -507,6 +509,8 @@ pub struct HistModel {
     pub budgets: Vec<(String, Budget)>,
     /// per budget, per kind: verdict as the only document of a stream
     pub solo: Vec<Vec<Vec<String>>>,
+    /// per budget, per kind: verdicts of the stream [kind, null document]
+    pub inner: Vec<Vec<Vec<String>>>,
 }
 
 impl HistModel {
@@ -515,30 +519,52 @@ impl HistModel {
         let mut budgets = Vec::new();
         let usages: Vec<Usage> = DOC_KINDS.iter().map(|(_, t)| reference_usage(&format!("---\n{}", t), true).unwrap()).collect();
         budgets.push(("unlimited".to_string(), unlimited()));
+        let solo_of = |b: &Budget| -> Vec<Vec<String>> { (0..DOC_KINDS.len()).map(|k| read_verdicts(&stream_text(&[k as u8]), b.clone(), 4).unwrap_or_else(|p| vec![format!("panic:{}", p)])).collect() };
         for ci in 0..7 {
             let m = usages.iter().map(|u| u.get(ci)).max().unwrap();
             budgets.push((format!("{}={}", COUNTERS[ci], m), with_limit(ci, m)));
-            if m >= 1 {
-                budgets.push((format!("{}={}", COUNTERS[ci], m - 1), with_limit(ci, m - 1)));
+            // the largest limit under which some document kind, alone in a stream, is really refused by the
+            // library (the reference usage may count stream-level events the per-document counter does not see)
+            let mut l = m;
+            while l >= 1 {
+                l -= 1;
+                let b = with_limit(ci, l);
+                if solo_of(&b).iter().any(|v| v.iter().any(|x| x.starts_with("budget:"))) {
+                    budgets.push((format!("{}={}", COUNTERS[ci], l), b));
+                    if l >= 1 {
+                        budgets.push((format!("{}={}", COUNTERS[ci], l - 1), with_limit(ci, l - 1)));
+                    }
+                    break;
+                }
             }
         }
         let solo = budgets
             .iter()
             .map(|(_, b)| (0..DOC_KINDS.len()).map(|k| read_verdicts(&stream_text(&[k as u8]), b.clone(), 4).unwrap_or_else(|p| vec![format!("panic:{}", p)])).collect())
             .collect();
-        HistModel { max_len, budgets, solo }
+        let inner = budgets
+            .iter()
+            .map(|(_, b)| (0..DOC_KINDS.len()).map(|k| read_verdicts(&stream_text(&[k as u8, 6]), b.clone(), 4).unwrap_or_else(|p| vec![format!("panic:{}", p)])).collect())
+            .collect();
+        HistModel { max_len, budgets, solo, inner }
     }
     fn judge(&self, h: &[u8]) -> Option<String> {
         let text = stream_text(h);
         for (bi, (bname, b)) in self.budgets.iter().enumerate() {
-            let got = match read_verdicts(&text, b.clone(), h.len() + 2) {
+            let got = match read_verdicts(&text, b.clone(), 2 * h.len() + 2) {
                 Ok(g) => g,
                 Err(p) => return Some(format!("panic: {}", p)),
             };
-            // expected: concatenation of the solo verdict lists (null documents yield no item)
+            // expected: concatenation of the per-document verdict lists (null documents yield no item). For every
+            // document but the last the list is taken from the stream [document, null document], so that what the
+            // end-of-stream events add to the counters is not attributed to the document.
             let mut want = Vec::new();
-            for &k in h {
-                want.extend(self.solo[bi][k as usize].iter().cloned());
+            for (i, &k) in h.iter().enumerate() {
+                if i + 1 == h.len() {
+                    want.extend(self.solo[bi][k as usize].iter().cloned());
+                } else {
+                    want.extend(self.inner[bi][k as usize].iter().cloned());
+                }
             }
             if got != want {
                 return Some(format!(
@@ -558,7 +584,7 @@ impl stateright::Model for HistModel {
     type State = HState;
     type Action = u8;
     fn init_states(&self) -> Vec<HState> {
-        vec![HState { history: vec![], bad: None, recovered: false, multi: false }]
+        vec![HState { history: vec![], bad: None, recovered: false, multi: false, after_breach: false }]
     }
     fn actions(&self, s: &HState, actions: &mut Vec<u8>) {
         if s.history.len() < self.max_len && s.bad.is_none() {
@@ -573,13 +599,15 @@ impl stateright::Model for HistModel {
         let bad = self.judge(&h);
         let recovered = s.recovered || (h.len() >= 2 && h[..h.len() - 1].contains(&5));
         let multi = h.iter().filter(|&&k| k != 6).count() >= 2;
-        Some(HState { history: h, bad, recovered, multi })
+        let after_breach = s.after_breach || (h.len() >= 2 && h[..h.len() - 1].iter().any(|&k| self.solo.iter().any(|per| per[k as usize].iter().any(|x| x.starts_with("budget:")))));
+        Some(HState { history: h, bad, recovered, multi, after_breach })
     }
     fn properties(&self) -> Vec<stateright::Property<Self>> {
         vec![
             stateright::Property::<Self>::always("per-document verdict independent of earlier documents", |_, s| s.bad.is_none()),
             stateright::Property::<Self>::sometimes("a document follows a failed (type error) document", |_, s| s.recovered),
             stateright::Property::<Self>::sometimes("stream with two non-null documents", |_, s| s.multi),
+            stateright::Property::<Self>::sometimes("a document follows one that breaches a budget", |_, s| s.after_breach),
         ]
     }
 }
@@ -613,13 +641,24 @@ fn run_histories(ctx: &Ctx, acc: &mut Acc) -> Result<(), String> {
     use stateright::{Checker, Model};
     let max_len = ctx.tier.pick(3, 4);
     let model = HistModel::new(max_len);
+    if std::env::var("VERIF_C07_DEBUG").is_ok() {
+        for (bi, (bname, b)) in model.budgets.iter().enumerate() {
+            if !bname.starts_with("events") {
+                continue;
+            }
+            for k in 0..DOC_KINDS.len() as u8 {
+                let h = [k, 0u8];
+                println!("{} [{} , plain] solo={:?} got={:?}", bname, DOC_KINDS[k as usize].0, model.solo[bi][k as usize], read_verdicts(&stream_text(&h), b.clone(), 6));
+            }
+        }
+    }
     let run_once = || {
-        let m = HistModel { max_len, budgets: model.budgets.clone(), solo: model.solo.clone() };
+        let m = HistModel { max_len, budgets: model.budgets.clone(), solo: model.solo.clone(), inner: model.inner.clone() };
         let checker = m.checker().threads(16).spawn_bfs().join();
         let states = checker.unique_state_count();
         let bad: Option<Vec<u8>> = checker.discovery("per-document verdict independent of earlier documents").map(|p| p.last_state().history.clone());
         let s1 = checker.discovery("a document follows a failed (type error) document").is_some();
-        let s2 = checker.discovery("stream with two non-null documents").is_some();
+        let s2 = checker.discovery("stream with two non-null documents").is_some() && checker.discovery("a document follows one that breaches a budget").is_some();
         (states, bad, s1, s2)
     };
     let (states, bad, s1, s2) = run_once();
